@@ -26,6 +26,9 @@ pub enum KillKind {
     Reset,
     /// reads see EOF (buffered data lost), writes fail with BrokenPipe
     Eof,
+    /// a silent partition: nothing is delivered any more and nobody is told — reads stay pending
+    /// for ever, writes are accepted and vanish (only a keep-alive or a deadline can notice)
+    Blackhole,
 }
 
 #[derive(Clone, Copy, Debug)]
@@ -274,6 +277,10 @@ impl AsyncRead for SimStream {
             return match k {
                 KillKind::Reset => Poll::Ready(Err(io::Error::new(io::ErrorKind::ConnectionReset, "simulated connection reset"))),
                 KillKind::Eof => Poll::Ready(Ok(())),
+                KillKind::Blackhole => {
+                    this.sim.probe("net-read-blackholed");
+                    Poll::Pending
+                }
             };
         }
         if d.buf.is_empty() {
@@ -340,6 +347,11 @@ impl AsyncWrite for SimStream {
             }
         }
         let d = if side == Side::Client { &mut c.c2s } else { &mut c.s2c };
+        if d.killed == Some(KillKind::Blackhole) {
+            let (id, n) = (this.id, data.len());
+            this.sim.ev(|| format!("t={now:?} net[{id}] {side:?} write {n}B -> vanishes (blackholed)"));
+            return Poll::Ready(Ok(data.len()));
+        }
         if d.killed.is_some() || d.reader_gone {
             let (id, k, g) = (this.id, d.killed, d.reader_gone);
             this.sim.ev(|| format!("t={now:?} net[{id}] {side:?} write -> BrokenPipe (killed={k:?} reader_gone={g})"));
